@@ -513,16 +513,16 @@ def check_modal_repetition(ctx, db):
 
 def run(ctx):
     db = ctx.db
-    check_start(ctx, db)
-    check_reader(ctx, db)
-    check_writers(ctx, db)
-    check_end_record(ctx, db)
-    check_std_properties(ctx, db)
-    check_ctrapezoid(ctx, db)
-    check_modal_repetition(ctx, db)
+    ctx.attempt(check_start, ctx, db)
+    ctx.attempt(check_reader, ctx, db)
+    ctx.attempt(check_writers, ctx, db)
+    ctx.attempt(check_end_record, ctx, db)
+    ctx.attempt(check_std_properties, ctx, db)
+    ctx.attempt(check_ctrapezoid, ctx, db)
+    ctx.attempt(check_modal_repetition, ctx, db)
     from . import C02   # UUUU = 15 is the standard's escape for an explicit value count: writer and reader agree on it for counts 0..40
-    C02.check_property(ctx, db)
-    C02.check_ctrapezoid_tables(ctx, db)   # the 16 trapezoid types: writer classification inverse to the reader construction
+    ctx.attempt(C02.check_property, ctx, db)
+    ctx.attempt(C02.check_ctrapezoid_tables, ctx, db)# the 16 trapezoid types: writer classification inverse to the reader construction
     from .. import fresh   # S_PATH_MAX_VERTICES: one element's centre line at a time
     nf = fresh.check_function(ctx, db.fn('gdstk::Library::write_oas'))
     ctx.require('R-FRESH scratch arrays in write_oas', nf, 2)
